@@ -43,6 +43,25 @@ var encodings = []string{"", "AUTO", "UTF8", "UTF8M", "UTF16", "UTF16BE", "UTF16
 var delims = []string{"", ",", ";", "|", "\t", " ", ":", "\"", "\n", "あ", `\t`, "a"}
 var badDelims = []string{"ab", ",,", `\\\\`}
 var weirdPositions = []string{"SPACES", "spaces", "[]", "S[]", "[0]", "[-1]", "[3,2]", "[2,2]", "[1,1000000000]", "[1,2,3,4,5,6,7,8,9,10,11,12]", "S[1,3]", "s[2]", "[1.5]", "[9223372036854775808]", "[\"1\"]", "{}", "garbage", "S[", "[1,2", "[5]", "[2,4,6]", "[1,5,9]"}
+// Known genuine defect (reported): FIXED with single-line mode and an empty
+// position list ('S[]') never reaches the end of the data: the reader returns
+// empty records for ever and memory grows without bound. The generator keeps
+// away from that exact shape so that the search continues; set to false to
+// reproduce it (signature fixed_single_line_no_positions_endless_loop).
+const avoidKnownSingleLineNoPositions = true
+
+// singleLineNoPositions: the option selects single-line mode with no positions.
+func singleLineNoPositions(pos string) bool {
+	if !strings.HasPrefix(pos, "S[") && !strings.HasPrefix(pos, "s[") {
+		return false
+	}
+	var ps []int
+	if err := json.Unmarshal([]byte(pos[1:]), &ps); err != nil {
+		return false
+	}
+	return len(ps) == 0
+}
+
 var jsonQueries = []string{"", "{}", "[]", "data", "data[0]", "data{}", "data[]", "data.rows", "[0]", "[1].c1", "{c1, c2 as x}", "{c1}", "data{c1 as `a b`}", "`data`", "'data'", "c1", "nosuch", "nosuch{}", "[99]", "[].c1", "data[].c2", "{c1, c1}", "{nosuch}",
 	"[", "{", "a..b", "a[", "'unterminated", "[-1]", "[99999999999999999999]", "{a as}", "{,}", ".", "data.", "[0][0][0]", "{}{}", "[]{}", "data[]{}", "1", "\x00", "{c1 as ''}"}
 var fileExt = map[string]string{"CSV": ".csv", "TSV": ".tsv", "LTSV": ".ltsv", "FIXED": ".txt", "JSON": ".json", "JSONL": ".jsonl"}
@@ -471,6 +490,9 @@ func genLoad(t *rapid.T) loadCase {
 			c.Pos = "SPACES"
 		case 2:
 			c.Pos = fw.PickU(t, "posWeird", weirdPositions)
+			if avoidKnownSingleLineNoPositions && singleLineNoPositions(c.Pos) {
+				c.Pos = "S[1]"
+			}
 		default:
 			if fixedPos != "" {
 				c.Pos = "S" + fixedPos
@@ -686,6 +708,9 @@ func checkLoad(c loadCase) (fw.Outcome, *fw.Violation) {
 	}
 	class, v := judge(res, what)
 	if v != nil {
+		if (v.Sig == "hang" || v.Sig == "runaway_memory") && c.Format == "FIXED" && singleLineNoPositions(c.Pos) {
+			v.Sig = "fixed_single_line_no_positions_endless_loop"
+		}
 		return o, v
 	}
 	switch {
